@@ -520,6 +520,13 @@ func corpusCfg(name string) genCfg {
 		base.sendAllRate = 4
 		base.dsts = []string{"x", "y", "a", "b"}
 		base.portionVars = true
+	case "save": // C08: saves among probing sends
+		base.maxVars, base.maxStmts = 2, 5
+		base.wSend, base.wSave, base.wTx, base.wAm = 5, 5, 0, 0
+		base.sendAllRate = 2
+		base.srcDepth, base.dstDepth = 1, 1
+		base.dsts = []string{"x", "y", "a"}
+		base.nums = []int{0, 1, 2, 3, 4, 5, 7, 8, 10, 12, 20, 30}
 	case "exact": // C03
 		base.sendAllRate = 0
 		base.maxVars = 2
